@@ -561,12 +561,13 @@ class simplify_chained_calls(FuncADLNodeTransformer):
 
     def visit_Subscript_Dict_with_value(self, v: ast.Dict, s: Union[str, int]):
         "Do the lookup for the dict"
-        for index, value in enumerate(v.keys):
+        # A key given more than once: the last one counts
+        for index, value in reversed(list(enumerate(v.keys))):
             assert isinstance(value, ast.Constant)
             if value.value == s:
                 return copy.deepcopy(v.values[index])
 
-        return ast.Subscript(v, s, ast.Load())  # type: ignore
+        return ast.Subscript(v, ast.Constant(s), ast.Load())  # type: ignore
 
     def visit_Subscript_Of_First(self, first: ast.expr, s):
         """
